@@ -79,7 +79,12 @@ def build_cores(spec):
         vals = [vals] * len(rows)
     cores = []
     for i in range(len(rows)):
-        cores.append(make_core(g, ranks[i], rows[i], cols[i], ranks[i + 1], cplx, vals[i], lay[i]))
+        c = make_core(g, ranks[i], rows[i], cols[i], ranks[i + 1], cplx, vals[i], "C")
+        if spec.get("neardiag") and rows[i] == cols[i]:
+            # identity-dominant operator cores: generically well-conditioned micro systems for the solvers
+            c = 0.2 * c
+            c[0, :, :, 0] += np.eye(rows[i])
+        cores.append(relayout(c, lay[i]))
     scale = spec.get("scale")
     if scale:
         cores[0] = cores[0] * scale
